@@ -8,6 +8,30 @@ NOTE = ("Trusted: Lean 4.33 kernel (axioms per theorem audited, allowed propext/
 CORR = ("Correspondence: Tie A certificates (every reachable state x 256 bytes x both anchorings of every real build, checked by the "
         "Lean-proved certOk against the ideal automaton / the noncontiguous NFA) and Tie B differential lines (harness vs acdrv).")
 CHECKS = {
+ "C01": ("proof",
+         "C01_find_ll / C01_find_lf: for every pattern list (duplicates, nested patterns, the empty pattern), haystack and span, the "
+         "search engine (transcription of try_find_fwd) on the ideal leftmost automaton returns THE leftmost-longest / leftmost-first "
+         "occurrence of the specification (IsFind), and none iff no pattern occurs; the iterator is the specification's iterator over "
+         "that search. " + CORR + " Certificates use the first-pattern observation strength.", "5 C01",
+         "Lean proof by loop invariant over the closed-form leftmost automaton + certified bisimulation of real tables + differential lines"),
+ "C02": ("proof",
+         "C02_find: for every pattern list, haystack, span and anchoring the engine on the ideal standard automaton returns the "
+         "earliest-ending occurrence (then longest, then first supplied) of the specification. " + CORR, "5 C02",
+         "Lean proof (run = longest-suffix-prefix, output = suffix patterns) + certified bisimulation + differential lines"),
+ "C03": ("proof",
+         "C03_calls / C03_iter: every prefix of the call history on one OverlappingState yields the corresponding prefix of THE "
+         "overlapping enumeration (every occurrence once, sorted by end, longer first, then supply order) and then none forever. "
+         + CORR + " Certificates compare whole ordered match lists.", "5 C03",
+         "Lean proof of the overlapping state machine against the sorted occurrence list + certified bisimulation + differential lines"),
+ "C09": ("proof",
+         "C09_find_{std,ll,lf}, C09_overlap, C09_starts_at_span_start: anchored searches return the specification's answer "
+         "restricted to occurrences beginning at the span start, for single search and stepwise overlapping search. " + CORR, "5 C09",
+         "Lean proof (anchored run = trie walk, engine filter) + certified bisimulation of the anchored transition functions + differential"),
+ "C14": ("proof",
+         "C14_earliest: in earliest mode a leftmost searcher returns a genuine admissible occurrence, one exists iff the normal "
+         "search finds one, and it never ends later; C14_is_match_*: is_match is true iff some admissible occurrence exists. "
+         "Differential on is_match / earliest for every kind, anchoring and prefilter setting.", "5 C14",
+         "Lean proof on the engine model + differential lines"),
  "C04": ("translation_validation",
          "Per pattern list: every build (noncontiguous/contiguous/DFA x start kind x dense depth x byte classes) is dumped "
          "through the public Automaton trait and certified bisimilar to the noncontiguous NFA by a checker whose soundness "
